@@ -188,6 +188,56 @@ fn helper_events(frames: &[Vec<u8>], frag_size: u32, w: &mut NdjsonWriter, exp: 
     }
 }
 
+/// Large frames cannot travel byte by byte: the frame holds the position pattern
+/// B(i) = i % 251 + 1 and the event carries run-length coded fragment lengths plus the
+/// bytes found at a few probe positions of the concatenated fragments (-1 = beyond the end).
+fn helper_big_event(frame_len: usize, frag_size: u32, w: &mut NdjsonWriter) {
+    let frame: Vec<u8> = (0..frame_len).map(|i| (i % 251) as u8 + 1).collect();
+    let r = catch(|| -> PixelFragmentSequence<Vec<u8>> { vec![Fragments::new(frame, frag_size)].into() });
+    let mut ev = json!({"ev": "helper_big", "api": "from_vec", "frame_len": frame_len, "frag_size": frag_size});
+    match r {
+        Ok(seq) => {
+            let frags = seq.fragments();
+            let mut runs: Vec<(u64, u64)> = Vec::new();
+            for f in frags {
+                match runs.last_mut() {
+                    Some((c, l)) if *l == f.len() as u64 => *c += 1,
+                    _ => runs.push((1, f.len() as u64)),
+                }
+            }
+            let total: usize = frags.iter().map(|f| f.len()).sum();
+            let at = |p: usize| -> i64 {
+                let mut q = p;
+                for f in frags {
+                    if q < f.len() {
+                        return f[q] as i64;
+                    }
+                    q -= f.len();
+                }
+                -1
+            };
+            let first_len = frags.first().map(|f| f.len()).unwrap_or(1).max(1);
+            let mut probes = vec![0, 1, first_len - 1, first_len, frame_len / 2, frame_len - 2, frame_len - 1, frame_len, frame_len + 1];
+            probes.retain(|p| *p < frame_len + 2);
+            probes.sort();
+            probes.dedup();
+            ev["res"] = json!("ok");
+            ev["bot"] = ju32(seq.offset_table());
+            ev["runs"] = Value::Array(runs.iter().map(|(c, l)| json!([c, l])).collect());
+            ev["total"] = json!(total);
+            ev["probes"] = Value::Array(probes.iter().map(|p| json!([p, at(*p)])).collect());
+        }
+        Err(p) => {
+            ev["res"] = json!(format!("panic: {p}"));
+            ev["bot"] = json!([]);
+            ev["runs"] = json!([]);
+            ev["total"] = json!(0);
+            ev["probes"] = json!([]);
+        }
+    }
+    w.emit(&ev);
+}
+
 fn attr_int(o: &Obj, tag: Tag) -> i64 {
     match o.get(tag) {
         None => -1,
@@ -236,7 +286,7 @@ fn transcode_events(spec: &ImgSpec, data: &[u8], tss: &[(String, String)], w: &m
     }
 }
 
-fn c18(cases_path: &str, out: &str, random: usize) {
+fn c18(cases_path: &str, out: &str, random: usize, big: bool) {
     let cases = read_ndjson(cases_path);
     let mut w = NdjsonWriter::create(out);
     let mut rep = Report::new();
@@ -291,6 +341,22 @@ fn c18(cases_path: &str, out: &str, random: usize) {
             transcode_events(&spec, &data, &sel, &mut w);
         }
     }
+    // frames of 16-32 MiB (one 4k x 4k frame of 8/16 bits) with fragment sizes around them
+    if big {
+        for (len, fs) in [
+            (16_777_216usize, 1_048_576u32),
+            (16_777_217, 1_048_576),
+            (16_777_217, 16_777_216),
+            (16_777_219, 0),
+            (16_785_409, 65_536),
+            (33_554_434, 33_554_432),
+            (33_554_433, 4_194_304),
+        ] {
+            rep.cases += 1;
+            nh += 1;
+            helper_big_event(len, fs, &mut w);
+        }
+    }
     let lines = w.finish();
     rep.extra.insert("events".into(), Value::from(lines as u64));
     rep.extra.insert("helper_cases".into(), Value::from(nh));
@@ -302,12 +368,136 @@ fn c18(cases_path: &str, out: &str, random: usize) {
     rep.print();
 }
 
+fn ts_uid(name: &str) -> &'static str {
+    match name {
+        "IVRLE" => IVRLE,
+        "EVRLE" => EVRLE,
+        "EVRBE" => EVRBE,
+        "EncUncomp" => ENCAPS_UNCOMPRESSED,
+        "DeflFrame" => DEFLATED_FRAME,
+        _ => panic!("unknown transfer syntax name {name}"),
+    }
+}
+fn ts_name(uid: &str) -> String {
+    for n in ["IVRLE", "EVRLE", "EVRBE", "EncUncomp", "DeflFrame"] {
+        if ts_uid(n) == uid.trim_end_matches('\0') {
+            return n.to_string();
+        }
+    }
+    uid.to_string()
+}
+
+/// replay one chain: transcoding steps and file hops; returns the event
+fn chain_event(spec: &ImgSpec, data: &[u8], start: &str, chain: &[String]) -> Value {
+    let mut o = native_object(spec, data, ts_uid(start), spec.bits_alloc == 16);
+    let mut res = "ok".to_string();
+    let mut trail = Vec::new();
+    for (k, step) in chain.iter().enumerate() {
+        let r: Result<(), String> = if step == "hop" {
+            match catch(|| write_bytes(&o).and_then(|b| read_bytes(&b))) {
+                Ok(Ok(n)) => {
+                    o = n;
+                    Ok(())
+                }
+                Ok(Err(e)) => Err(format!("hop: {e}")),
+                Err(p) => Err(format!("hop panic: {p}")),
+            }
+        } else {
+            let ts = TransferSyntaxRegistry.get(ts_uid(step)).expect("ts");
+            match catch(|| o.transcode(ts)) {
+                Ok(Ok(())) => Ok(()),
+                Ok(Err(e)) => Err(format!("transcode to {step}: {e}")),
+                Err(p) => Err(format!("transcode to {step} panic: {p}")),
+            }
+        };
+        let plen: i64 = match o.get(tags::PIXEL_DATA).map(|e| e.value()) {
+            Some(DValue::Primitive(p)) => p.to_bytes().len() as i64,
+            Some(DValue::PixelSequence(s)) => s.fragments().iter().map(|f| f.len() as i64).sum(),
+            _ => -1,
+        };
+        trail.push(json!({"step": step, "ts": ts_name(o.meta().transfer_syntax()), "len": plen}));
+        if let Err(e) = r {
+            res = format!("step {}: {}", k + 1, e.chars().take(200).collect::<String>());
+            break;
+        }
+    }
+    let (native, pixels) = match o.get(tags::PIXEL_DATA).map(|e| e.value()) {
+        Some(DValue::Primitive(p)) => (true, p.to_bytes().to_vec()),
+        _ => (false, vec![]),
+    };
+    let a = |t: Tag| attr_int(&o, t).max(0);
+    json!({"ev": "chain", "rows": spec.rows, "cols": spec.cols, "spp": spec.spp, "bits": spec.bits_alloc,
+        "frames": spec.frames, "data": jb(data), "start": start, "chain": chain, "res": res, "trail": trail,
+        "final": {"ts": ts_name(o.meta().transfer_syntax()), "native": native, "pixels": jb(&pixels),
+            "nframes": a(tags::NUMBER_OF_FRAMES), "rows": a(tags::ROWS), "cols": a(tags::COLUMNS),
+            "spp": a(tags::SAMPLES_PER_PIXEL), "bits": a(tags::BITS_ALLOCATED)}})
+}
+
+fn c19(cases_path: &str, out: &str, random: usize) {
+    let cases = read_ndjson(cases_path);
+    let mut w = NdjsonWriter::create(out);
+    let mut rep = Report::new();
+    let mut distinct = std::collections::BTreeSet::new();
+    for c in &cases {
+        rep.cases += 1;
+        let chain: Vec<String> = c["chain"].as_array().unwrap().iter().map(|x| x.as_str().unwrap().to_string()).collect();
+        distinct.insert(format!("{}/{:?}/{}x{}x{}x{}x{}", c["start"], chain, c["rows"], c["cols"], c["spp"], c["bits"], c["frames"]));
+        w.emit(&chain_event(&ImgSpec::from_json(c), &bytes_of(&c["data"]), c["start"].as_str().unwrap(), &chain));
+    }
+    let mut rng = Rng::new(seed_from_env() ^ 0xC19);
+    let names = ["IVRLE", "EVRLE", "EVRBE", "EncUncomp", "DeflFrame"];
+    for _ in 0..random {
+        rep.cases += 1;
+        let bits = if rng.coin() { 8 } else { 16 };
+        let (r, c) = (rng.range(1, 12) as u16, rng.range(1, 12) as u16);
+        let spp = if rng.coin() { 1 } else { 3 };
+        let spec = ImgSpec::simple(r, c, spp, bits, rng.range(1, 7) as u32);
+        let data = rng.bytes(spec.frame_bytes() * spec.frames as usize);
+        let start = *rng.pick(&names[..3]);
+        let mut chain = Vec::new();
+        let mut cur = start;
+        let n = rng.range(1, 4);
+        for k in 0..n {
+            if rng.below(3) == 0 {
+                chain.push("hop".to_string());
+            }
+            let mut t = *rng.pick(&names);
+            if k == n - 1 {
+                t = "EVRLE";
+            }
+            if t != cur {
+                chain.push(t.to_string());
+                cur = t;
+            }
+        }
+        if cur != "EVRLE" {
+            chain.push("EVRLE".to_string());
+        }
+        if !chain.iter().any(|x| x != "hop") {
+            chain.push("EncUncomp".to_string());
+            chain.push("EVRLE".to_string());
+        }
+        if rng.below(4) == 0 {
+            chain.push("hop".to_string());
+        }
+        distinct.insert(format!("{start}/{chain:?}/{r}x{c}x{spp}x{bits}x{}", spec.frames));
+        w.emit(&chain_event(&spec, &data, start, &chain));
+    }
+    let lines = w.finish();
+    rep.extra.insert("events".into(), Value::from(lines as u64));
+    rep.extra.insert("distinct_chains".into(), Value::from(distinct.len() as u64));
+    let have: Vec<String> = encoder_syntaxes().into_iter().map(|(u, _)| u).collect();
+    rep.extra.insert("encoder_syntaxes".into(), json!(have));
+    rep.print();
+}
+
 fn main() {
     quiet_panics();
     let a = args_map();
     let random = a.get("random").map(|s| s.parse().unwrap()).unwrap_or(0);
     match a.get("_0").map(|s| s.as_str()) {
-        Some("c18") => c18(&a["cases"], &a["out"], random),
+        Some("c19") => c19(&a["cases"], &a["out"], random),
+        Some("c18") => c18(&a["cases"], &a["out"], random, a.contains_key("big")),
         _ => {
             eprintln!("usage: drv_encaps c18|c19 --cases F --out F [--random N]");
             std::process::exit(2);
